@@ -1,1 +1,2 @@
 import PieModel.Props.C17Lib
+import PieModel.Props.C17Trace
